@@ -64,6 +64,8 @@ def get_fingerprinted_hostname(url, infer_redirection=True, strip_suffix=False):
 
 
 def fingerprint_url(url, unsplit=True, strip_suffix=False, platform_aware=False):
+    original_url_arg = url
+
     url = url.lower()
 
     splitted = normalize_url(
@@ -72,6 +74,11 @@ def fingerprint_url(url, unsplit=True, strip_suffix=False, platform_aware=False)
         query_item_filter=lang_query_item_filter,
         platform_aware=platform_aware,
     )
+
+    # NOTE: normalize_url returns its argument when it cannot be parsed
+    if not isinstance(splitted, SplitResult):
+        return original_url_arg
+
     _, netloc, path, query, fragment = splitted
 
     # NOTE: unquoting can reveal uppercase letters (%4A is "J")
